@@ -420,8 +420,10 @@ func flattenScenarios(tier string, seed int64, scratch string) ([]*Case, []strin
 		roleScen := []string{"aux1,object,prop,none,none", "local,object,nested,code,none", "anonprop,object,code,none,none", "selfrec,prim,opbody,prop2,none"}
 		kr := rand.New(rand.NewSource(seed + 991))
 		kr.Shuffle(len(klines), func(i, j int) { klines[i], klines[j] = klines[j], klines[i] })
+		// (two names with URL sub-delimiters outside the MC_Keys alphabet, planted in every run: '+' must stay a plus, not become a space)
+		klines = append([]string{`{"name":["a","+","b"]}`, `{"name":["x","&","y","=","z"]}`}, klines...)
 		for i, l := range klines {
-			if i >= nNames {
+			if i >= nNames+2 {
 				break
 			}
 			var ex struct {
